@@ -998,7 +998,11 @@ class HttpPayloadParser:
                     max_line_length = self._max_line_size
                     if self._chunk == ChunkState.PARSE_TRAILERS:
                         max_line_length = self._max_field_size
-                    if len(self._chunk_tail) > max_line_length:
+                    # A trailing CR may be the first half of the line terminator.
+                    if (
+                        len(self._chunk_tail) - self._chunk_tail.endswith(b"\r")
+                        > max_line_length
+                    ):
                         raise LineTooLong(
                             self._chunk_tail[:100] + b"...", max_line_length
                         )
@@ -1013,7 +1017,12 @@ class HttpPayloadParser:
                     if pos >= 0:
                         # Only chunk-size lines reach here; trailers enforce
                         # _max_field_size separately in PARSE_TRAILERS below.
-                        if pos > self._max_line_size:
+                        # In lax mode SEP is a bare LF: the CR before it is
+                        # part of the terminator, not of the line.
+                        line_len = pos
+                        if SEP == b"\n" and chunk[pos - 1 : pos] == b"\r":
+                            line_len -= 1
+                        if line_len > self._max_line_size:
                             raise LineTooLong(chunk[:100] + b"...", self._max_line_size)
                         i = chunk.find(CHUNK_EXT, 0, pos)
                         if i >= 0:
